@@ -554,7 +554,11 @@ pub fn install_panic_recorder() {
                 .location()
                 .map(|l| {
                     let f = l.file();
-                    let f = f.rsplit_once("/repo/").map(|x| x.1).unwrap_or(f);
+                    // path relative to the repository under test (scratch copies live elsewhere)
+                    let f = match std::env::var("VERIF_REPO_DIR") {
+                        Ok(d) if !d.is_empty() && f.starts_with(&d) => f[d.len()..].trim_start_matches('/'),
+                        _ => f.rsplit_once("/repo/").map(|x| x.1).unwrap_or(f),
+                    };
                     format!("{}:{}", f, l.line())
                 })
                 .unwrap_or_default();
